@@ -71,7 +71,39 @@ def nontrivial_key(prop, m, facts, text, seed):
     return None
 
 
-def one_generation(acc, prop, m, seed, forced, fr, script=None, parsed=None):
+@st.composite
+def gen_case_lists(draw):
+    m = draw(molecules(avoid=AVOID, max_blocks=2, max_atoms=4, small=True, lists=True, plain_ok=False))
+    seed = draw(st.integers(0, 2**31 - 1))
+    fr = [(draw(st.integers(1, 4)), draw(st.sampled_from([0.5, 0.25])), draw(st.integers(0, 3)), 1) for _ in range(3)]
+    return m, seed, True, fr
+
+
+def _misdirect_list(m, seed):
+    """move list weight onto an incompatible descriptor of the same object; True if something was changed"""
+    from ..strategies import _reprint
+    import random
+    rnd = random.Random(seed)
+    stos = [e for e in m.elements if isinstance(e, Stoch)]
+    rnd.shuffle(stos)
+    for sto in stos:
+        allb = sto.bds
+        cands = [b for b in sto.repeat_bds if b.transitions]
+        rnd.shuffle(cands)
+        for b in cands:
+            bad = [i for i, o in enumerate(allb) if not b.compatible(o)]
+            if not bad:
+                continue
+            lst = list(b.weight)
+            lst[rnd.choice(bad)] = float(rnd.choice([1, 3, 7]))
+            b.weight = tuple(lst)
+            _reprint(sto)
+            m.written = [e.text() if isinstance(e, Stoch) else w for e, w in zip(m.elements, m.written)]
+            return True
+    return False
+
+
+def one_generation(acc, prop, m, seed, forced, fr, script=None, parsed=None, tolerate_raise=False):
     """returns parsed (for re-use) or None"""
     text = m.text(False)
     if parsed is None:
@@ -100,11 +132,13 @@ def one_generation(acc, prop, m, seed, forced, fr, script=None, parsed=None):
             acc.count("sampler_error_dropped(C11's business)")
             return parsed
         acc.case(None, labels=["gen:raised"])
+        if tolerate_raise:
+            return parsed
         if prop == "C06":
             acc.violation("completes", f"generation of the well-posed molecule {text!r} raised {msg[:300]}", case,
                           {"error": type(gres.exc).__name__}, size=len(text))
         return parsed
-    findings, facts = genoracle.evaluate(parsed, gres)
+    findings, facts = genoracle.evaluate(parsed, gres, want_closed=not tolerate_raise)
     acc.case(nontrivial_key(prop, m, facts, text, seed if script is None else tuple(script)),
              labels=["arche:" + a for a in m.arche.split("+")] + [f"forced:{forced}", f"n_res:{min(facts.get('n_res', 0), 12)}"])
     for p, oracle, msg, sig in findings:
@@ -146,6 +180,23 @@ def run_shard(cfg, prop):
         acc.count("accepted_by_closability_analysis")
         one_generation(acc, prop, m, seed, forced, fr)
     drive(gen_case(), f, per["random"], cfg["seed"])
+
+    # lists that put weight on an INCOMPATIBLE descriptor: the notation is ill-posed, generation may raise - but whatever it
+    # returns must still satisfy C04/C05 (no bond between incompatible descriptors on any path)
+    if prop in ("C04", "C05"):
+        def h(x):
+            m, seed, forced, fr = x
+            if time.time() > t_end - 0.3 * SOFT_DEADLINE[cfg["tier"]]:
+                return
+            ok, why = reflaw.well_posed(m)
+            if not ok:
+                return
+            if not _misdirect_list(m, seed):
+                acc.count("misdirect_not_applicable")
+                return
+            acc.count("misdirected_list_cases")
+            one_generation(acc, prop, m, seed, True, fr, tolerate_raise=True)
+        drive(gen_case_lists(), h, max(1, per["random"] // 3), cfg["seed"] + 3)
 
     # bounded instances: every sequence of random choices
     def g(x):
